@@ -1002,3 +1002,97 @@ def f11(ctx):
               'behind (tree_broadcast_map then raises on compatible operands)'
               % ('conditional (%s)' % mod.loc(conditional[0]) if conditional else
                  'not threaded through the running result'), mod.loc(fn))
+
+
+# ---------------------------------------------------------------------------------------------
+# re-implemented in Python on purpose; T6 compares their formulas with the engine's
+F12_TWINS = {'treespec_is_leaf', 'treespec_is_strict_leaf', 'treespec_is_one_level'}
+
+
+@rule('F12', floor=8, title='every treespec_<method>() wrapper calls that method of its first argument with its own arguments in the engine\'s order')
+def f12(ctx):
+    """Found generically: a function treespec_<m> of optree.ops whose first positional parameter
+    is annotated PyTreeSpec, where the engine binds a PyTreeSpec method <m>.  The wrapper must
+    return <first>.<m>(...) and hand each of its remaining parameters to the binding argument of
+    the same position (positional) or the same name (keyword) - so treespec_transform(spec, f_node,
+    f_leaf) cannot swap the two callbacks and treespec_is_suffix cannot call is_prefix."""
+    pkg = ctx.py()
+    prog = ctx.cxx()
+    mod = pkg.mod('optree.ops')
+    tab = binding_table(prog)
+    n = 0
+    for q, fn in sorted(mod.funcs.items()):
+        if '.' in q or not q.startswith('treespec_'):
+            continue
+        m = q[len('treespec_'):]
+        b = tab.get(('PyTreeSpec', m))
+        pp = _pos_params(fn)
+        if b is None or not pp or pp[0].annotation is None or not src(pp[0].annotation).startswith('PyTreeSpec'):
+            continue
+        if b.kind != 'def':
+            continue          # properties are compared by T6
+        if q in F12_TWINS:
+            # a Python re-implementation of the engine method (a twin): its formula is compared
+            # with the engine's by T6
+            ctx.info(q + '/twin', '%s re-implements PyTreeSpec.%s in Python (compared by T6)' % (q, m),
+                     mod.loc(fn))
+            continue
+        n += 1
+        body = [s_ for s_ in fn.body if not (isinstance(s_, ast.Expr) and isinstance(s_.value, ast.Constant))]
+        ok = len(body) == 1 and isinstance(body[0], ast.Return) and isinstance(body[0].value, ast.Call) and \
+            isinstance(body[0].value.func, ast.Attribute) and is_name(body[0].value.func.value, pp[0].arg) and \
+            body[0].value.func.attr == m
+        why = 'is not `return <treespec>.%s(...)`' % m
+        if ok:
+            call = body[0].value
+            bargs = [a[0] for a in b.args]
+            own = [a.arg for a in pp[1:]] + [a.arg for a in fn.args.kwonlyargs]
+            got = {}
+            for i, a in enumerate(call.args):
+                if i < len(bargs):
+                    got[bargs[i]] = src(a)
+            for k in call.keywords:
+                if k.arg:
+                    got[k.arg] = src(k.value)
+            # each own parameter, in order, must land in the binding argument of the same index
+            want = {bargs[i]: own[i] for i in range(min(len(own), len(bargs)))}
+            ok = got == want and len(own) == len(bargs)
+            why = 'passes %s, the engine method takes %s' % (got, bargs)
+        ctx.check(q + '/thin', ok,
+                  '%s returns its first argument\'s %s() with its own arguments in the engine\'s order' % (q, m),
+                  '%s %s' % (q, why), mod.loc(fn))
+    ctx.require(n >= 8, 'only %d treespec_<method> wrappers found' % n)
+
+
+@rule('F13', floor=2, title='prefix broadcasting repeats each prefix leaf once per leaf of the matching subtree')
+def f13(ctx):
+    pkg = ctx.py()
+    mod = pkg.mod('optree.ops')
+    for name, mapper in (('tree_broadcast_prefix', 'tree_map'), ('broadcast_prefix', 'tree_map_')):
+        fn = mod.func(name)
+        pp = [a.arg for a in _pos_params(fn)]
+        inner = [f_ for q_, f_ in mod.funcs.items() if q_.startswith(name + '.') and q_.count('.') == 1]
+        ctx.require(len(inner) == 1 and len(pp) >= 2, '%s: helper function / parameters not recognised' % name)
+        h = inner[0]
+        hp = [a.arg for a in h.args.posonlyargs + h.args.args]
+        ctx.require(len(hp) == 2, '%s: helper takes %d parameters' % (name, len(hp)))
+        env = {'x': hp[0], 'sub': hp[1]}
+        spec = None
+        for s_ in h.body:
+            if isinstance(s_, ast.Assign) and isinstance(s_.value, ast.Call) and \
+                    call_name(s_.value) == 'tree_structure' and s_.value.args and is_name(s_.value.args[0], hp[1]):
+                spec = s_.targets[0].id if isinstance(s_.targets[0], ast.Name) else None
+        reps = [c for c in calls_under(h) if call_name(c) == 'itertools.repeat']
+        ok = spec is not None and len(reps) == 1 and \
+            pmatch(reps[0], 'itertools.repeat(?x, ?spec.num_leaves)', dict(env, spec=spec)) is not None
+        # the helper is mapped over (prefix, full) in this order with the caller's options
+        mc = [c for c in calls_under(fn) if call_name(c) == mapper]
+        okm = len(mc) == 1 and len(mc[0].args) == 3 and is_name(mc[0].args[0], h.name) and \
+            is_name(mc[0].args[1], pp[0]) and is_name(mc[0].args[2], pp[1])
+        ctx.check(name + '/replication', ok and okm,
+                  '%s maps a helper over (prefix, full) that repeats the prefix leaf num_leaves(subtree) '
+                  'times, the subtree being the helper\'s second argument' % name,
+                  '%s: %s' % (name, 'the helper does not repeat its first argument '
+                                    'tree_structure(<second argument>).num_leaves times' if not ok else
+                              'the helper is not mapped over (prefix_tree, full_tree) in this order'),
+                  mod.loc(fn))
